@@ -67,10 +67,11 @@ func reqBlock(mode string, id uint32, tag int, extra ...[2]string) []byte {
 // ---- alphabet ----
 
 type env struct {
-	m       *h2sm.Machine
-	tag     int
-	contTag int // tag of the HEADERS frame that started the pending header block
-	only    map[string]bool
+	m         *h2sm.Machine
+	tag       int
+	contTag   int  // tag of the HEADERS frame that started the pending header block
+	contUpper bool // ... and whether the rest of that block carries the upper-case field
+	only      map[string]bool
 }
 
 type letter struct {
@@ -153,6 +154,13 @@ func alphabet() []letter {
 		{name: "H_NEW_NOEH", build: func(x *env) ([]byte, bool) {
 			id := x.m.NextID()
 			b := reqBlock("h", id, x.tag)
+			return hdr(id, b[:7], true, false, nil, -1), true
+		}},
+		// the first frame of a header block that turns out malformed only in its last fragment (an upper-case field name
+		// at the end of the block, carried by the CONTINUATION frame that CONT_EH sends)
+		{name: "H_NEW_NOEH_UPPER", build: func(x *env) ([]byte, bool) {
+			id := x.m.NextID()
+			b := reqBlock("h", id, x.tag, [2]string{"X-Upper", "1"})
 			return hdr(id, b[:7], true, false, nil, -1), true
 		}},
 		{name: "CONT_EH", build: func(x *env) ([]byte, bool) {
@@ -272,6 +280,9 @@ func alphabet() []letter {
 // contRest: the bytes of the request block that H_NEW_NOEH did not send (it sent the first 7).
 func (x *env) contRest(id uint32) []byte {
 	tag := x.contTag
+	if x.contUpper {
+		return reqBlock("h", id, tag, [2]string{"X-Upper", "1"})[7:]
+	}
 	return reqBlock("h", id, tag)[7:]
 }
 
@@ -436,8 +447,9 @@ func runHistory(t *testing.T, cfg config, forced []string, depth int, c *mc.Choo
 				if len(fs) != 1 || cparse.Pending() != 0 {
 					panic(mc.HarnessError{Msg: "letter " + l.name + " is not exactly one frame"})
 				}
-				if l.name == "H_NEW_NOEH" {
+				if l.name == "H_NEW_NOEH" || l.name == "H_NEW_NOEH_UPPER" {
 					x.contTag = x.tag
+					x.contUpper = l.name == "H_NEW_NOEH_UPPER"
 				}
 				e := m.Client(fs[0], x.tag)
 				rec.Frame = fs[0].String()
@@ -643,7 +655,7 @@ type phase struct {
 }
 
 // coreLetters: the letters that move the stream state machine, for the deep pruned phase.
-var coreLetters = []string{"H_NEW_ES_NOW", "H_NEW_ES_HOLD", "H_NEW_HOLD", "H_NEW_NOW", "H_CLOSED", "H_TRAILERS_ES", "H_HALFCLOSED", "H_NEW_NOEH", "CONT_EH",
+var coreLetters = []string{"H_NEW_ES_NOW", "H_NEW_ES_HOLD", "H_NEW_HOLD", "H_NEW_NOW", "H_CLOSED", "H_TRAILERS_ES", "H_HALFCLOSED", "H_NEW_NOEH", "H_NEW_NOEH_UPPER", "CONT_EH",
 	"H_NEW_UPPER", "H_NEW_CONNHDR", "D_OPEN", "D_OPEN_ES", "D_HALFCLOSED", "D_CLOSED", "R_OPEN", "R_HALFCLOSED", "R_CLOSED", "W_OPEN", "W_CLOSED", "P_SELF", "S_ACK", "GOAWAY", "RELEASE"}
 
 // slotLetters: the letters that occupy and free handler slots, for the deep phase about the concurrency limit (requests
